@@ -35,10 +35,14 @@ def native_replay(rp, workroot):
     import re
     from engine.core import replay_bin
     m = re.match(r"c01_rollback_h(\d)_(\d+)_(\d+)_(\d+)_s(\d+)_([tf])([tf])", rp["harness"])
-    if not m:
-        return None, "no native reproducer for this scenario (solver counterexample only)"
-    H, a, b, c, s, sb, r2 = m.groups()
-    return replay_bin("c01", ["rollback", a, b, c, s, 1 if sb == "t" else 0, 1 if r2 == "t" else 0])
+    if m:
+        H, a, b, c, s, sb, r2 = m.groups()
+        ok, detail = replay_bin("c01", ["rollback", a, b, c, s, 1 if sb == "t" else 0, 1 if r2 == "t" else 0])
+        if ok:
+            return ok, detail
+    # any scenario: plain append sequences with records below / at / above the real 16 KiB write buffer
+    ok2, detail2 = replay_bin("c01", ["sequence"])
+    return ok2, detail2
 
 
 def generate(d):
